@@ -84,8 +84,9 @@ def r_main_wiring(ck: Checker) -> None:
     ck.need(args_name is not None, "result of parse_args() is bound to a local")
     st = it.states(call)[0] if it.states(call) else None
     ck.need(st is not None, "optimize call reachable in main")
+    opt_params = ck.func("api:optimize").params()
     for flag in flags:
-        val = kwarg(call, flag)
+        val = kwarg(call, flag, opt_params.index(flag) if flag in opt_params else None)
         ok = False
         text = "<missing>"
         if val is not None:
